@@ -88,6 +88,24 @@ theorem C13_sync_admission {p : Params} (hq : Sync.NoQuirks p) (hsm : SmallSketc
     · subst hx; rw [if_pos rfl, hnew]
     · rw [if_neg hx, AL.get?_put_ne _ hx]
 
+/-- **A candidate that fits is admitted outright.**  In a quiescent calm state, a new key whose
+weight fits in the room the residents leave (and that does not expire the moment it is inserted:
+neither `ttl` nor `tti` is zero) is resident after `insert` and the next maintenance run, at
+the most recently used end of the access order; the popularity estimates are not consulted
+and every other key holds the entry it held. -/
+theorem C13_sync_has_room {p : Params} (hq : Sync.NoQuirks p) (hsm : SmallSketch p) {cap : Nat}
+    (hcap : p.cap = some cap) {s : SState} (hi : AInv p s) (hc : CalmS p cap s) (k v : Nat)
+    (hnew : AL.get? s.map k = none) (hroom : s.ws + p.weigh k v ≤ cap)
+    (httl : p.ttl ≠ some 0) (htti : p.tti ≠ some 0) :
+    (∃ e, AL.get? (syncRun p (insert p s k v)).map k = some e ∧ e.val = v) ∧
+    (∀ k', k' ≠ k → AL.get? (syncRun p (insert p s k v)).map k' = AL.get? s.map k') ∧
+    (syncRun p (insert p s k v)).prob.map (·.key) = s.prob.map (·.key) ++ [k] := by
+  obtain ⟨hmap, node, hnk, hprob⟩ := insert_sync_fits hq hsm hcap hi hc k v hnew hroom httl htti
+  refine ⟨⟨candVE s v, by rw [hmap, AL.get?_put_self], rfl⟩, ?_, ?_⟩
+  · intro k' hne
+    rw [hmap, AL.get?_put_ne _ (Ne.symm hne)]
+  · rw [hprob, List.map_append, List.map_cons, List.map_nil, hnk]
+
 /-- **Scan resistance** on the concurrent cache: in a quiescent calm cache a new key whose
 estimate is zero and that finds no room never displaces a resident, whatever the residents'
 estimates and weights. -/
@@ -363,6 +381,7 @@ end MiniMoka
 namespace MiniMoka.Props
 #print axioms C13_sync_reachable
 #print axioms C13_sync_admission
+#print axioms C13_sync_has_room
 #print axioms C13_sync_scan_resistance
 #print axioms C13_sync_oracle
 #print axioms C12_sync_reachable
